@@ -23,6 +23,7 @@ int main(void)
 			continue;
 		uint64_t L = vh_parse_u(tok[0]), R = vh_parse_u(tok[1]), T = vh_parse_u(tok[2]);
 		printf("C %" PRIu64 " %" PRIu64 " %" PRIu64 "\n", L, R, T);
+		fflush(stdout);	/* a sanitizer abort inside the library's macros must leave the failing case visible */
 		for(uint64_t nd = 0; nd < R; ++nd) {
 			global_config.lps = L;
 			global_config.n_threads = (unsigned)T;
